@@ -124,6 +124,9 @@ def classify_known(pid, lines, rej):
     return None
 
 
+OBS_ALSO = bool(os.environ.get("VERIF_OBS_ALSO"))
+
+
 def conform(v, wd, name, c, schedules, storage="mem", valclass="ascii", invs=INVS,
             max_failures=3, extra_steps=None, flush=2, sqlite_dir=None, header=None, obs=True):
     """Replay schedules on the real code and validate the trace; account the result in v."""
@@ -157,6 +160,18 @@ def conform(v, wd, name, c, schedules, storage="mem", valclass="ascii", invs=INV
         if r["accepted"]:
             v.traces += len(split_behaviours(cur))
             v.events += nev
+            if mode == "impl" and obs and OBS_ALSO:
+                # self-test of the property-level specification: whatever TraceSync accepts,
+                # ObsSync must accept too (else a harmless drift would end in a false alarm)
+                ocfg2 = write_cfg(os.path.join(wd, name + ".obs.cfg"), trace_constants(c),
+                                  spec="OSpec", invariants=invs, postcondition="Accepted")
+                ro = tlc_trace(wd, name + ".obsalso", "ObsSync.tla", ocfg2, cur)
+                v.extra["property_level_selftest_traces"] = \
+                    v.extra.get("property_level_selftest_traces", 0) + len(split_behaviours(cur))
+                if not ro["accepted"]:
+                    v.tool_errors.append(f"{name}: ObsSync rejects a trace that TraceSync accepts: "
+                                         f"{json.dumps(ro['event'])[:300]} invariant={ro['violated']} "
+                                         f"(see {ro['out']})")
             if mode == "obs":
                 v.extra["validated_at_property_level_only"] = \
                     v.extra.get("validated_at_property_level_only", 0) + len(split_behaviours(cur))
